@@ -40,8 +40,8 @@ def pkg_dir(demo_text):
         return "cmd/sandbox" if "cmd/sandbox" in demo_text else "cmd/seccomp-profiler"
     if pkg.startswith("unix"):
         return "internal/unix"
-    if re.match(r"^c\d\ddemo\d*$", pkg):
-        return pkg        # a package of its own inside the module (new directory)
+    if re.match(r"^c\d\ddemo\d*(_test)?$", pkg):
+        return re.sub(r"_test$", "", pkg)        # a package of its own inside the module (new directory)
     return "."
 
 
